@@ -266,7 +266,7 @@ int main(int argc, char **argv)
   sh = mmap(NULL, sizeof *sh, PROT_READ | PROT_WRITE, MAP_SHARED | MAP_ANONYMOUS, -1, 0);
   if (sh == MAP_FAILED) { perror("mmap"); return 2; }
   {
-    long next = from;
+    long next = from, ncrash = 0;
     while (next < to) {
       pid_t pid;
       int st = 0;
@@ -313,6 +313,8 @@ int main(int argc, char **argv)
       if (WIFSIGNALED(st)) fprintf(ctx.out, "X\t%ld\tsignal %d\t%d\n", sh->cur, WTERMSIG(st), (int)pid);
       else fprintf(ctx.out, "X\t%ld\texit %d\t%d\n", sh->cur, WEXITSTATUS(st), (int)pid);
       next = sh->cur + 1;
+      /* a tree on which every other case dies has been judged already: do not spend the run re-forking */
+      if (++ncrash >= 40) { fprintf(ctx.out, "O\tshards_stopped_after_40_crashes\t1\nO\tcases_not_run_after_crash_cap\t%ld\n", to - next); break; }
     }
   }
   fflush(ctx.out);
